@@ -10,7 +10,7 @@ import itertools
 import re
 from fractions import Fraction
 
-from ..absint import Evaluator, Licence
+from ..absint import Evaluator, Licence, Obj
 from ..errors import AnalysisError
 from ..model import FuncInfo, dotted, src, walk_scope
 from ..report import Context
@@ -72,10 +72,13 @@ def documented_order(ctx: Context) -> list[str]:
     ok = [src(a) for a in c.args] == ["parameters_bounds", "parameters_precision"]
     ctx.check(ok, "R1.routing", "SearchSpace.__init__:_check_bounds-args", "_check_bounds(parameters_bounds, parameters_precision)",
               f"validation called as {src(c)}", init, c)
-    uses = [s for s in init.node.body if any(isinstance(x, ast.Name) and x.id in ("parameters_bounds", "parameters_precision") for x in ast.walk(s))]
-    first_real = uses[0] if uses else init.node
-    ctx.check(any(x is c for x in ast.walk(first_real)), "R1.routing", "SearchSpace.__init__:validate-first",
-              "validation is the first statement that touches the specification", "the constructor uses its arguments before validating them", init, first_real)
+    # the validation call lies in the constructor's validation prefix (everything before the first store into `self`): that prefix is what R1 evaluates,
+    # so checks a refactoring moved from _check_bounds into the constructor (or the other way round) are still read in their order of execution
+    first_store = next((i for i, s_ in enumerate(init.node.body) if any(isinstance(x, ast.Attribute) and isinstance(x.ctx, ast.Store) and isinstance(x.value, ast.Name)
+                                                                          and x.value.id == init.self_name for x in ast.walk(s_))), len(init.node.body))
+    in_prefix = any(any(x is c for x in ast.walk(s_)) for s_ in init.node.body[:first_store])
+    ctx.check(in_prefix, "R1.routing", "SearchSpace.__init__:validate-first",
+              "validation runs before the constructor stores anything derived from the specification", "the constructor stores attributes before validating its arguments", init, c)
     return found
 
 
@@ -125,8 +128,24 @@ def _param_witnesses() -> list[tuple[str, Fraction, Fraction, Fraction]]:
 def r1_r2_table(ctx: Context, order: list[str]) -> None:
     prog = ctx.prog
     cb = ctx.func(f"{SS}._check_bounds")
-    raises = [n for n in walk_scope(cb.node) if isinstance(n, ast.Raise)]
-    ctx.floor("R1", "raise sites in _check_bounds", len(raises), 7)
+    # What is evaluated is the constructor's *validation prefix*: everything SearchSpace.__init__ does before it first stores into `self` - the call of
+    # _check_bounds, and whatever part of the validation a refactoring moved into the constructor or into further helpers (followed interprocedurally).
+    init = ctx.func(f"{SS}.__init__")
+    prefix: list[ast.stmt] = []
+    for st in init.node.body:
+        if any(isinstance(x, ast.Attribute) and isinstance(x.ctx, ast.Store) and isinstance(x.value, ast.Name) and x.value.id == init.self_name for x in ast.walk(st)):
+            break
+        prefix.append(st)
+    reach = [cb]
+    for st in prefix:
+        for c_ in ast.walk(st):
+            if isinstance(c_, ast.Call):
+                for t in prog.resolve_call(init, c_):
+                    if isinstance(t, FuncInfo) and t not in reach:
+                        reach.append(t)
+    raises = [n for st in prefix for n in ast.walk(st) if isinstance(n, ast.Raise)] + [n for f_ in reach for n in walk_scope(f_.node) if isinstance(n, ast.Raise)]
+    ctx.floor("R1", "raise sites of the constructor's validation (prefix of __init__ and the validators it calls)", len(raises), 7)
+    from ..absint import Outcome, _Raise, _Return
     rows = 0
     classes: set[str] = set()
     bad: dict[str, dict] = {}
@@ -143,11 +162,17 @@ def r1_r2_table(ctx: Context, order: list[str]) -> None:
     def one(label: str, bounds: list, prec: list) -> None:
         nonlocal rows
         rows += 1
-        ev = Evaluator(prog, cb)
+        ev = Evaluator(prog, init)
         try:
-            out = ev.run({"parameters_bounds": bounds, "parameters_precision": prec})
+            try:
+                ev._block(prefix, {init.self_name: Obj("SearchSpace", {}), "parameters_bounds": bounds, "parameters_precision": prec, "verbose": False})  # noqa: SLF001
+                out = Outcome("return", node=init.node)
+            except _Return as r_:
+                out = Outcome("return", value=r_.value, node=r_.node)
+            except _Raise as r_:
+                out = Outcome("raise", r_.name, r_.args_, r_.kwargs_, r_.node)
         except Licence as exc:
-            raise AnalysisError(f"licence check failed for _check_bounds: {exc}") from exc
+            raise AnalysisError(f"licence check failed for the validation of SearchSpace: {exc}") from exc
         want = _expected(order, bounds, prec)
         if out.kind == "raise":
             got_name = out.name
